@@ -1075,7 +1075,7 @@ func (field *SortField) RenderBytes(buf *bytes.Buffer, posmap BufPositionsMap) *
 	Begin := buf.Len()
 
 	if field.Name != "" {
-		_, _ = buf.WriteString(field.Name)
+		_, _ = buf.WriteString(QuoteIdent(field.Name))
 		_, _ = buf.WriteString(" ")
 	}
 	if field.Ascending {
